@@ -270,15 +270,16 @@ class AsyncFIXConnection:
                         "Connection has been closed, message was not sent"
                     )
         else:
-            if self._connection_role == ConnectionRole.INITIATOR:
-                if (
-                    self._connection_state == ConnectionState.LOGON_INITIAL_SENT
-                    and msg.msg_type != FMsg.LOGOUT
-                ):
-                    raise FIXConnectionError(
-                        "Initiator is waiting for Logon() response, you must not send"
-                        " any additional messages before acceptor responce."
-                    )
+            # Logon exchange in progress (these states imply the role, which is
+            #  assigned only after the awaited on_state_change() hook)
+            if (
+                self._connection_state == ConnectionState.LOGON_INITIAL_SENT
+                and msg.msg_type != FMsg.LOGOUT
+            ):
+                raise FIXConnectionError(
+                    "Initiator is waiting for Logon() response, you must not send"
+                    " any additional messages before acceptor responce."
+                )
             elif (
                 self._connection_state == ConnectionState.LOGON_INITIAL_RECV
                 and msg.msg_type != FMsg.LOGON
